@@ -18,6 +18,7 @@ import (
 type c14Case struct {
 	Table   *gen.TableSpec `json:"table,omitempty"`
 	History *c07Case       `json:"history,omitempty"`
+	Bulk    *gen.Bulk      `json:"bulk,omitempty"`
 }
 
 func genC14(t *rapid.T) c14Case {
@@ -30,6 +31,10 @@ func genC14(t *rapid.T) c14Case {
 	if rapid.IntRange(0, 9).Draw(t, "hot") == 0 {
 		o.Hot, o.HashPoolMax, o.MaxRefs, o.MaxLogs = true, 1, 220, 3
 		o.Kinds = []int{gen.KVal, gen.KVal, gen.KVal, gen.KVal, gen.KVal, gen.KVal, gen.KPeeled, gen.KDel}
+	}
+	if rapid.IntRange(0, 199).Draw(t, "bulk") == 77 {
+		tab, b := drawBulk(t)
+		return c14Case{Table: &tab, Bulk: b}
 	}
 	tab := gen.DrawTable(t, o)
 	return c14Case{Table: &tab}
@@ -112,6 +117,10 @@ func dropLogTombstones(logs []gen.Log) []gen.Log {
 func propC14(c c14Case, o *Obs) error {
 	if c.Table != nil {
 		spec := *c.Table
+		if c.Bulk != nil {
+			spec.Refs = c.Bulk.Expand(spec.Min)
+			o.Class("bulk-restart-cap")
+		}
 		data, st, rejected, err := WriteTable(spec)
 		if rejected {
 			o.Rejected()
